@@ -31,6 +31,11 @@ ITER_EXCEPTIONS = {
 }
 
 
+def _inner_conds(e, loop):
+    gi = list(e.guard).index(loop)
+    return [g for g in e.guard[gi + 1:] if g[0] not in ("loop", "while", "try", "except")]
+
+
 def run(ctx):
     repo = ctx.repo
 
@@ -370,6 +375,50 @@ def run(ctx):
     ctx.check(ok and ok_rm, "PAIR", f"{gm.qualname} / PAIR / edges rebuilt between consecutive kept ids; removed vertices = ids in no kept interface", ctx.where(gm),
               "edges[k] = SmallEdge(k, vertices[be[n]], vertices[be[n+1]]) for be in nEdgeArray; vertexToRemove = ids not in chain(nEdgeArray)",
               f"rebuild joins consecutive kept ids: {ok}; removal set is the complement of the kept ids: {ok_rm}")
+
+    # ================================================================== skeleton parser: every cyclically consecutive pair of a contour gets its edge
+    ctx.clause("consecutive vertices of every cell cycle are joined by a mesh edge (skeleton contours, the closing pair included)")
+    skl = repo.func("forsys.skeleton.Skeleton.create_lattice")
+    ctx.touch(skl)
+    ssk = sym.summarize(repo, skl.qualname)
+    ce = [e for e in ssk.events if e.kind == "call" and e.target == "forsys.skeleton.Skeleton.create_edge" and len(e.args) == 3]
+    if not ce:
+        raise AnalysisError("Skeleton.create_lattice no longer calls create_edge - re-bind the anchor")
+    step, closing, full, other = False, False, False, []
+    for e in ce:
+        poly = e.args[2]
+        N = T.call("len", (poly,))
+        lp = e.loops()
+        inner = lp[-1] if lp and any(x == ("bv", lp[-1][1]) for a in e.args[:2] for x in T.subterms(a)) else None
+        if inner is not None:
+            k = ("bv", inner[1])
+            rng = inner[2]
+            a0, a1 = e.args[0], e.args[1]
+            if rng == T.call("range", (T.sub(N, T.num(1)),)) and (a0, a1) == (k, T.add(k, T.num(1))) and not _inner_conds(e, inner):
+                step = True
+            elif rng == T.call("range", (N,)) and not _inner_conds(e, inner) and \
+                    ((a0, a1) == (k, T.call("mod", (T.add(k, T.num(1)), N))) or (a0, a1) == (T.sub(k, T.num(1)), k)):
+                full = True
+            elif rng == T.call("range", (T.sub(N, T.num(1)),)) and a0 == k and a1 == T.call("mod", (T.add(k, T.num(1)), N)) and not _inner_conds(e, inner):
+                step = True      # (k+1) % N == k+1 for k < N-1: the pairs (k, k+1) only, the wrap-around never happens in this range
+            else:
+                other.append(f"{T.show(T.alpha(a0))}, {T.show(T.alpha(a1))} over {T.show(T.alpha(rng))[:60]}")
+        else:
+            a0, a1 = e.args[0], e.args[1]
+            leaked = [x for x in T.subterms(a0) if x[0] == "bv"]
+            last_ok = a0 in (T.sub(N, T.num(1)), T.num(-1)) or (leaked and a0 == T.add(leaked[0], T.num(1)))
+            first_ok = a1 == T.ZERO
+            if (last_ok and first_ok) or (a1 in (T.sub(N, T.num(1)), T.num(-1)) and a0 == T.ZERO):
+                closing = True
+            else:
+                other.append(f"{T.show(T.alpha(a0))}, {T.show(T.alpha(a1))} (outside the pair loop)")
+    covered = full or (step and closing)
+    if not covered and not (step or full) and other:
+        raise AnalysisError(f"Skeleton.create_lattice: edge creation over a contour not understood: {other[:2]}")
+    ctx.check(covered, "PAIR", f"{skl.qualname} / PAIR / an edge for every consecutive pair of the contour and for (last, first)", ctx.where(skl, ce[0].node),
+              "create_edge(k, k+1) for k < len-1, and create_edge(last, 0)",
+              f"the contour's pairs (k, k+1) are joined but the closing pair (last, first) never is: a cell whose first pixel pair is not re-created by a neighbour "
+              f"has two consecutive vertices without a mesh edge" if step and not closing else f"edge creation covers {'the closing pair only' if closing else other[:2]}")
 
     # ================================================================== ITER
     ctx.clause("deletion loops see every element: no loop iterates a live back-reference list while its body removes from it")
